@@ -28,6 +28,8 @@ func runC16(c *Ctx) {
 	c16Inputs(c)
 	c16Alloc(c)
 	c16Detach(c)
+	runAssignTaintRule(c, "C16.assign", 4)
+	runAssignInPlaceRule(c, "C16.inplace", 18)
 }
 
 func c16PtrKinds(c *Ctx) {
